@@ -76,6 +76,9 @@ def normal_form(func, subs=(), keep_name=False, keep_param_names=False):
         fn.body = fn.body[1:] or [ast.Pass()]
     if not keep_name:
         fn.name = "f"
+    for n in ast.walk(fn):
+        if isinstance(n, ast.Call):
+            n.keywords.sort(key=lambda k: k.arg or "")      # before the role map: its patterns see one canonical order
     txt = ast.unparse(fn)
     for pat, rep in subs:
         txt = re.sub(pat, rep, txt)
@@ -229,7 +232,7 @@ PAIRS = [
     Pair("examples-subject-vs-object", IRF + "_annotate_example_subject_inverse_paths", IRF + "_annotate_example_object_inverse_paths",
          subs=SO + [(r"DIR", "DIR"), (r"inverse=(True|False)", "inverse=FLAG")], props=("C14", "C17")),
     Pair("examples-no-inverse-vs-subject", DFS + "_annotate_example_no_inverse", IRF + "_annotate_example_subject_inverse_paths",
-         subs=[(r", inverse=False", "")], props=("C17",)),
+         subs=[(r"inverse=False, ", ""), (r", inverse=False", "")], props=("C17",)),
     Pair("triple-features-with-vs-without-examples", IRF + "_annotate_triple_features_no_examples",
          IRF + "_annotate_triple_features_with_examples", mode="sublines",
          subs=[], props=("C17", "C13", "C14"), why="switching examples on only adds example bookkeeping"),
